@@ -80,6 +80,31 @@ theorem C12_value_at_canon (l : List (Nat × Value)) (i : Nat) (hs : l.Pairwise 
       rw [scanAt_all_gt _ _ _ hgt]
       exact scanAt_all_gt _ _ _ (fun z hz => hgt z (go_subset x.2 r z hz))
 
+theorem scanAt_lastPerStep (l : List (Nat × Value)) : ∀ (p : Option Value) (i : Nat),
+    scanAt p (lastPerStep l) i = scanAt p l i := by
+  fun_induction lastPerStep l with
+  | case1 => intro p i; rfl
+  | case2 x => intro p i; rfl
+  | case3 x y rest heq ih =>
+    intro p i
+    rw [ih]
+    simp only [scanAt]
+    by_cases hx : x.1 ≤ i
+    · have hy : y.1 ≤ i := by omega
+      simp [hx, hy]
+    · simp [hx]
+  | case4 x y rest hne ih =>
+    intro p i
+    simp only [scanAt]
+    by_cases hx : x.1 ≤ i
+    · simp only [hx, ↓reduceIte]; exact ih _ i
+    · simp only [hx, ↓reduceIte]; exact ih _ i
+
+/-- **merging the delta cycles of a time step (what an FST file stores: one value per signal and time, the last one) does not
+change the value shown at any time index** -/
+theorem C12_value_at_merged (l : List (Nat × Value)) (i : Nat) : valueAt (lastPerStep l) i = valueAt l i :=
+  scanAt_lastPerStep l none i
+
 theorem go_scale (k m : Nat) (hk : 0 < k) (l : List Nat) :
     strictPrefixMax.go (m * k) (l.map (· * k)) = (strictPrefixMax.go m l).map (· * k) := by
   induction l generalizing m with
